@@ -189,6 +189,10 @@ def check(cell):
 
     if cell[0] == "nary":
         return check_nary(cell)
+    if cell[0] == "oper":
+        return check_oper(cell)
+    if cell[0] == "meth":
+        return check_meth(cell)
     kinds, prog = cell
     try:
         vals, recs, status = execute(prog, kinds, False)
@@ -338,8 +342,177 @@ def check_nary(cell):
     return None
 
 
+OPERATORS = {"add": "add", "sub": "subtract", "mul": "multiply", "truediv": "divide", "pow": "power"}
+# operand kinds of the operator cells: the leaf kinds plus 0-d tensors/arrays holding the values for which operators have shortcuts
+OPKINDS = ["fvar", "fconst", "itens", "nd", "sc", "fvar0:1", "fvar0:2", "fvar0:3", "fvar0:0", "fconst0:2", "fconst0:1", "i0:2", "nd0:2", "sc:2", "sc:1", "f32var0:2"]
+
+
+def make_opkind(kind, which):
+    import mygrad as mg
+
+    if ":" in kind:
+        k, v = kind.split(":")
+        v = float(v)
+        return {"fvar0": lambda: mg.tensor(v), "fconst0": lambda: mg.tensor(v, constant=True), "i0": lambda: mg.tensor(int(v)), "nd0": lambda: np.array(v), "sc": lambda: v,
+                "f32var0": lambda: mg.tensor(np.float32(v))}[k]()
+    return make_leaf(kind, which)
+
+
+METHODS = {
+    "astype_same_nocopy": lambda x, c: x.astype(x.dtype, copy=False, constant=c),
+    "astype_same_copy": lambda x, c: x.astype(x.dtype, constant=c),
+    "astype_f32": lambda x, c: x.astype("float32", constant=c),
+    "astype_f32_nocopy": lambda x, c: x.astype("float32", copy=False, constant=c),
+    "astype_f64_nocopy": lambda x, c: x.astype(np.float64, copy=False, constant=c),
+    "astype_i32": lambda x, c: x.astype("int32", constant=c),
+    "m_sum": lambda x, c: x.sum(constant=c),
+    "m_mean": lambda x, c: x.mean(constant=c),
+    "m_reshape": lambda x, c: x.reshape(2, 1, constant=c),
+    "m_transpose": lambda x, c: x.transpose(constant=c),
+    "m_flatten": lambda x, c: x.flatten(constant=c),
+    "m_squeeze": lambda x, c: x.squeeze(constant=c),
+    "m_swapaxes": lambda x, c: x.reshape(2, 1).swapaxes(0, 1, constant=c),
+    "m_ravel": lambda x, c: x.ravel(constant=c),
+    "m_max": lambda x, c: x.max(constant=c),
+    "m_prod": lambda x, c: x.prod(constant=c),
+    "m_cumsum": lambda x, c: x.cumsum(constant=c),
+    "m_clip": lambda x, c: x.clip(-1, 1, constant=c),
+    "m_std": lambda x, c: x.std(constant=c),
+    "m_matmul": lambda x, c: __import__("mygrad").matmul(x, x, constant=c),
+    "f_astensor": lambda x, c: __import__("mygrad").astensor(x, constant=c),
+    "f_astensor_f32": lambda x, c: __import__("mygrad").astensor(x, dtype="float32", constant=c),
+    "f_tensor": lambda x, c: __import__("mygrad").tensor(x, constant=c),
+    "f_tensor_nocopy": lambda x, c: __import__("mygrad").tensor(x, copy=False, constant=c),
+    "f_zeros_like": lambda x, c: __import__("mygrad").zeros_like(x, constant=c),
+    "f_ones_like_f32": lambda x, c: __import__("mygrad").ones_like(x, dtype="float32", constant=c),
+    "f_full_like": lambda x, c: __import__("mygrad").full_like(x, 2, constant=c),
+}
+# result flag when constant= is None: "follow" the operand (operations), "dtype" (constructors: float -> non-constant), None = not claimed
+METHOD_DEFAULT = {k: ("follow" if k.startswith("m_") else None if k.startswith("astype") else "follow" if k.startswith("f_astensor") else "dtype") for k in METHODS}
+METHOD_DEFAULT["f_astensor_f32"] = None
+METHOD_DEFAULT["f_tensor_nocopy"] = None  # (may hand back its argument)
+for _k in ("f_zeros_like", "f_ones_like_f32", "f_full_like"):
+    METHOD_DEFAULT[_k] = "follow"  # documented: "inferred from `other`, if other is a tensor"
+
+
+def call_cells():
+    for o in OPERATORS:
+        for kl in OPKINDS:
+            for kr in OPKINDS:
+                yield ("oper", o, kl, kr)
+    for m in METHODS:
+        for k in ("fvar", "fconst", "itens", "btens"):
+            for c in CONSTS:
+                yield ("meth", m, k, c)
+
+
+def check_oper(cell):
+    import operator
+
+    import mygrad as mg
+
+    _, o, kl, kr = cell
+
+    def run(use_operator):
+        base.reset_mygrad()
+        a, b = make_opkind(kl, 0), make_opkind(kr, 1)
+        if not (is_tensor(a) or is_tensor(b)):
+            raise Skip("no tensor operand")
+        try:
+            np_r = getattr(operator, o)(data_of(a), data_of(b))
+        except Exception as e:
+            del e
+            raise Skip("numpy rejects")
+        r = getattr(operator, o)(a, b) if use_operator else getattr(mg, OPERATORS[o])(a, b)
+        return a, b, r, np_r
+
+    try:
+        a, b, r, np_r = run(True)
+    except Skip as e:
+        return ("skip", str(e))
+    except Exception as e:
+        eb = base.exc_brief(e)
+        del e
+        return ("exception", "operator raised %s: %s" % eb)
+    if not is_tensor(r):
+        return ("type", "result is %s" % type(r).__name__)
+    isfloat = np.issubdtype(np.asarray(np_r).dtype, np.floating)
+    expect = (not isfloat) or all((v.constant if is_tensor(v) else True) for v in (a, b))
+    if r.constant is not expect:
+        return ("constant_flag", "result.constant is %r, rule says %r" % (r.constant, expect))
+    r.backward()
+    got = []
+    for name, v in (("left", a), ("right", b)):
+        if is_tensor(v) and v.constant and v.grad is not None:
+            return ("grad_on_constant", "%s operand is constant yet exposes a gradient" % name)
+        if is_tensor(v) and not v.constant and v.grad is None and not r.constant:
+            return ("grad_none", "%s operand is a non-constant input of a non-constant result yet has no gradient" % name)
+        got.append(None if not is_tensor(v) or v.grad is None else v.grad.copy())
+    a2, b2, r2, _ = run(False)
+    r2.backward()
+    for name, g, v in zip(("left", "right"), got, (a2, b2)):
+        g2 = v.grad if is_tensor(v) else None
+        if (g is None) != (g2 is None) or (g is not None and not (g.shape == g2.shape and np.allclose(g, g2, rtol=1e-6, atol=0, equal_nan=True))):
+            return ("differential", "%s operand: gradient %s via the operator, %s via mg.%s" % (name, g, g2, OPERATORS[o]))
+    return None
+
+
+def check_meth(cell):
+    import mygrad as mg
+
+    _, m, k, c = cell
+    x = make_leaf(k, 0)
+    isfloat_src = x.dtype.kind == "f"
+    try:
+        r = METHODS[m](x, c)
+        raised = None
+    except Exception as e:
+        raised = base.exc_brief(e)
+        del e
+    if raised is not None:
+        # which dtype would the result have had?
+        try:
+            r0 = METHODS[m](make_leaf(k, 0), True)
+            res_float = r0.dtype.kind == "f"
+        except Exception as e:
+            del e
+            return ("skip", "the call is rejected whatever the flag")
+        if c is False and not res_float:
+            return None
+        return ("exception", "%s(constant=%r) on a %s raised %s: %s" % ((m, c, k) + raised))
+    if not is_tensor(r):
+        return ("type", "result is %s" % type(r).__name__)
+    res_float = r.dtype.kind == "f"
+    if not res_float:
+        if c is False:
+            return ("not_rejected", "%s(constant=False) returned an integer/bool tensor" % m)
+        expect = True
+    elif c is not None:
+        expect = c
+    else:
+        d = METHOD_DEFAULT[m]
+        expect = x.constant if d == "follow" else False if d == "dtype" else None
+    if expect is not None and r.constant is not expect:
+        return ("constant_flag", "%s(constant=%r) on a %s: result.constant is %r, rule says %r" % (m, c, k, r.constant, expect))
+    # a non-constant result can carry a gradient; a constant one never does
+    try:
+        (r * 1.0).sum().backward()
+    except Exception as e:
+        eb = base.exc_brief(e)
+        del e
+        return ("exception", "backward raised %s: %s" % eb)
+    if r.constant and r.grad is not None:
+        return ("grad_on_constant", "constant result of %s exposes a gradient" % m)
+    if not r.constant and r.grad is None:
+        return ("grad_none", "non-constant result of %s(constant=%r) on a %s received no gradient" % (m, c, k))
+    if x.constant and x.grad is not None:
+        return ("grad_on_constant", "constant operand of %s exposes a gradient" % m)
+    return None
+
+
 def cells(tier):
     yield from nary_cells()
+    yield from call_cells()
     depth = BOUNDS[tier]
     for ka in LEAF_KINDS:
         for kb in LEAF_KINDS:
@@ -348,18 +521,18 @@ def cells(tier):
 
 
 def steps(cell):
-    return 1 if cell[0] == "nary" else len(cell[1])
+    return 1 if cell[0] in ("nary", "oper", "meth") else len(cell[1])
 
 
 def nontrivial(cell):
-    if cell[0] == "nary":
+    if cell[0] in ("nary", "oper", "meth"):
         return True
     kinds, prog = cell
     return any(k in ("fconst", "itens", "btens", "nd", "sc") for k in kinds) or any(st[2] is not None for st in prog)
 
 
 def outcome(cell):
-    return "ok:nary" if cell[0] == "nary" else "ok:%d statements" % len(cell[1])
+    return "ok:" + cell[0] if cell[0] in ("nary", "oper", "meth") else "ok:%d statements" % len(cell[1])
 
 
 def plan(tier, seed):
@@ -410,8 +583,8 @@ def finalize(v):
     from mc import conf
 
     me = __import__("harness.C10", fromlist=["x"])
-    me.script = lambda cell, f: ("# n-ary cell %r\n# %s: %s\n" % (cell, f[0], f[1])) if cell[0] == "nary" else render_prog(cell[0], cell[1]) + "# %s: %s\n" % (f[0], f[1])
-    me.signature = lambda cell, f: base.stable_hash((cell[1], f[0])) if cell[0] == "nary" else base.stable_hash((tuple(st[0] for st in cell[1]), tuple(st[2] for st in cell[1]), f[0], f[1][:30]))
+    me.script = lambda cell, f: ("# %s cell %r\n# %s: %s\n" % (cell[0], cell, f[0], f[1])) if cell[0] in ("nary", "oper", "meth") else render_prog(cell[0], cell[1]) + "# %s: %s\n" % (f[0], f[1])
+    me.signature = lambda cell, f: base.stable_hash((cell[0], cell[1], f[0])) if cell[0] in ("nary", "oper", "meth") else base.stable_hash((tuple(st[0] for st in cell[1]), tuple(st[2] for st in cell[1]), f[0], f[1][:30]))
     return conf.finalize_cell(me, v)
 
 
@@ -420,7 +593,7 @@ def m_constant_view_reports_grad(v):
     view-gradient path after backward."""
     f = v.get("failure") or {}
     cell = (v.get("case") or {}).get("cell") or [None, []]
-    if cell[0] == "nary":
+    if cell[0] in ("nary", "oper", "meth"):
         return False
     return f.get("kind") == "grad_on_constant" and any(st[0] == "reshape" and st[2] is True for st in cell[1])
 
